@@ -7,6 +7,10 @@
 //   - `chk …` lines carry the verdict of the direct oracle evaluated here on the real memory
 //     (`ok` or `FAIL …`); they are not sent to the model.
 //
+// checks/shapes.py also writes the sub-packages pa/v1, pb/v1, pc/v1 (import paths harness/pa/v1, ...) next to
+// this file: all three are `package v1` and declare types of the same names, so that shapes can hold DISTINCT
+// types that reflect prints identically (`v1.ID`); shapes_gen.go imports them as v1a, v1b, v1c.
+//
 // Panics are canonicalised to a small enum, never message text.  The GC is switched off: lens
 // tests fill guard-wrapped values with byte patterns (also in pointer slots) that are never
 // dereferenced.
